@@ -30,6 +30,14 @@ MutFacts.lean:
   sFirstItemCallers: the classes among Assign / Delete whose __init__ passes the path through
                      `_s_first_item` before it is split into parent path and final (op, arg)
   sFirstMagicOps   : the first-step ops core._t_eval hands to _s_first_magic (which does scope[key])
+  argValuatorShape : recognised shape of core._ArgValuator (what arg_val makes of a literal container in
+                     `val` position): 'memo by id, entered first, never dropped' (exact list / dict through a
+                     memo keyed by identity: looked up first, entered before the children are evaluated,
+                     no entry ever removed; tuple / set / frozenset rebuilt per occurrence) or 'other'
+  argValShape      : recognised shape of core.arg_val: 'one fresh _ArgValuator per call' or 'other'
+  starLoopShape    : recognised shape of the loop of core._t_eval that applies the rest of a path to the
+                     entries a wildcard produced: 'rest evaluated once per entry in order; PathAccessError
+                     skips the entry' or 'other'
 """
 import ast
 
@@ -309,6 +317,62 @@ def extract(ctx):
                     if a is not None:
                         self_writes.append((cname, fn.name, a))
 
+    # _ArgValuator / arg_val
+    def body_src(fn):
+        body = [b for b in fn.body if not (isinstance(b, ast.Expr) and isinstance(b.value, ast.Constant))]
+        return '\n'.join(_src(b) for b in body)
+
+    argval_shape = 'other'
+    av = find_def(core, '_ArgValuator')
+    if av is None:
+        P.add('core._ArgValuator not found')
+    else:
+        av_init = find_def(core, '__init__', cls='_ArgValuator')
+        av_mode = find_def(core, 'mode', cls='_ArgValuator')
+        fns = [n.name for n in av.body if isinstance(n, ast.FunctionDef)]
+        want_init = 'self.cache = {}'
+        want_mode = ("recur = lambda val: scope[glom](target, val, scope)\n"
+                     "result = spec\n"
+                     "if type(spec) in (list, dict):\n"
+                     "    if id(spec) in self.cache:\n"
+                     "        return self.cache[id(spec)]\n"
+                     "    result = self.cache[id(spec)] = type(spec)()\n"
+                     "    if type(spec) is dict:\n"
+                     "        result.update({recur(key): recur(val) for key, val in spec.items()})\n"
+                     "    else:\n"
+                     "        result.extend([recur(val) for val in spec])\n"
+                     "if type(spec) in (tuple, set, frozenset):\n"
+                     "    result = type(spec)([recur(val) for val in spec])\n"
+                     "return result")
+        if (av_init is not None and av_mode is not None and fns == ['__init__', 'mode']
+                and body_src(av_init) == want_init and body_src(av_mode) == want_mode):
+            argval_shape = 'memo by id, entered first, never dropped'
+    arg_val_shape = 'other'
+    avf = find_def(core, 'arg_val')
+    if avf is None:
+        P.add('core.arg_val not found')
+    elif body_src(avf) == ("mode = scope[MIN_MODE]\n"
+                           "scope[MIN_MODE] = _ArgValuator().mode\n"
+                           "result = scope[glom](target, arg, scope)\n"
+                           "scope[MIN_MODE] = mode\n"
+                           "return result"):
+        arg_val_shape = 'one fresh _ArgValuator per call'
+
+    # the loop over the entries of a wildcard in _t_eval
+    star_loop = 'other'
+    tev = find_def(core, '_t_eval')
+    if tev is None:
+        P.add('core._t_eval not found')
+    else:
+        loops = [n for n in ast.walk(tev) if isinstance(n, ast.For) and _src(n.iter) == 'nxt'
+                 and _src(n.target) == 'child']
+        if len(loops) == 1 and _src(loops[0]) == ("for child in nxt:\n"
+                                                  "    try:\n"
+                                                  "        cur.append(_t_eval(child, todo, scope))\n"
+                                                  "    except PathAccessError:\n"
+                                                  "        pass"):
+            star_loop = 'rest evaluated once per entry in order; PathAccessError skips the entry'
+
     T4 = 'List (String × String × List String × String)'
     defs = [
         ('assignOpBranches', T4, a_br),
@@ -324,6 +388,9 @@ def extract(ctx):
         ('sFirstItem', 'List (String × String)', s_first),
         ('sFirstItemCallers', 'List String', s_first_callers),
         ('sFirstMagicOps', 'List String', s_magic),
+        ('argValuatorShape', 'String', argval_shape),
+        ('argValShape', 'String', arg_val_shape),
+        ('starLoopShape', 'String', star_loop),
     ]
     return [('MutFacts',
              'branches of _assign_op and Delete._del_one with the exception classes each catches; '
